@@ -2,8 +2,10 @@
 pub mod alloc;
 pub mod facade;
 pub mod gen;
+pub mod model;
 pub mod props;
 pub mod report;
+pub mod scen;
 pub mod util;
 pub mod wire;
 pub mod world;
